@@ -3,15 +3,15 @@
 made whose harness depends on the mutant's scratch worktree (patch applied there), and the listed checks
 are run in that copy.  Used to iterate quickly / in parallel; the results recorded under /verif/seeded/ come
 from tools/try_seed.sh (patch applied to /repo itself, check run from /verif, patch undone).
-usage: seed_screen.py <ID> <mN> [CHECK ...]      (worktree /tmp/mut/<ID>, mutant /tmp/mut/<ID>/_out/<mN>)"""
+usage: seed_screen.py <ID> <mN> [CHECK ...]      (worktree /tmp/seed/<ID>, mutant /tmp/seed/out/<ID>/<mN>)"""
 import json, os, re, shutil, subprocess, sys, time
 
 pid, m = sys.argv[1], sys.argv[2]
 checks = sys.argv[3:] or [pid]
 tier = os.environ.get("SEED_TIER", "quick")
-root = os.environ.get("SEED_ROOT", "/tmp/mut")
+root = os.environ.get("SEED_ROOT", "/tmp/seed")
 wt = "%s/%s" % (root, pid)
-md = "%s/_out/%s" % (wt, m)
+md = "%s/out/%s/%s" % (root, pid, m)
 clone = "/root/scratch/vseed/%s%s" % (os.path.basename(root), pid)
 
 
